@@ -1,5 +1,5 @@
 (* C05/Proofs.v *)
-From Coq Require Import ZArith Bool List Lia ZifyBool.
+From Coq Require Import ZArith Bool List Lia ZifyBool Btauto.
 From Verif Require Import C05.Model C05.Spec.
 Import ListNotations.
 Open Scope Z_scope.
@@ -117,3 +117,339 @@ Proof.
   match goal with |- (if ?b then _ else _) = _ => destruct b end; [reflexivity|].
   destruct (n >? fst s + timeslack a) eqn:E; [reflexivity|lia].
 Qed.
+
+(* ====================================================================================================
+   The whole message (Model.xaccept, Spec.xspec) *)
+Lemma timeslack_skew a : timeslack a = match a with Some z => z | None => 0 end.
+Proof. unfold timeslack. destruct a as [z|]; [|reflexivity]. destruct (Z.eqb_spec z 0); [symmetry; assumption|reflexivity]. Qed.
+
+Ltac split_hyp_ifs :=
+  repeat match goal with
+         | H : context [if ?b then _ else _] |- _ => destruct b eqn:?; cbn [negb] in *
+         end.
+
+Ltac unfold_w :=
+  unfold w_inside_b, w_strict_b, lower_ok_b, upper_ok_b, lower_strict_b, upper_strict_b, ordered_b, opt_some_b,
+    validate_on_or_after, validate_before, later_than, str_to_time, sec in *;
+  cbn [fst snd negb] in *.
+
+(* ---- soundness, stage by stage *)
+Lemma statements_ok_sound n k sts v : 0 < n - k -> statements_ok n k sts = Some v ->
+  forallb (upper_ok_b n k) sts = true
+  /\ match present sts with
+     | _ :: _ => (v >? 0) = true /\ existsb (fun e => v =? e) (map sec (present sts)) = true
+     | [] => v = 0
+     end.
+Proof.
+  intros Hpos H. destruct sts as [|b [|b2 r]]; try discriminate H. cbn [statements_ok] in H.
+  destruct b as [[s f]|]; unfold present; cbn [flat_map app forallb map existsb]; unfold_w.
+  - destruct (n >? s + k) eqn:E; [discriminate H|]. injection H as <-. repeat split; lia.
+  - injection H as <-. split; reflexivity.
+Qed.
+
+Lemma conditions_ok_sound n k c v : conditions_ok n k c = Some v ->
+  match c with
+  | Some w => w_inside_b n k w = true /\ match snd w with Some s => v = sec s | None => True end
+  | None => True
+  end.
+Proof.
+  destruct c as [[nb nooa]|]; [|intros _; exact I]. unfold conditions_ok.
+  destruct nb as [[a fa]|], nooa as [[b fb]|]; unfold_w; intros H; split_hyp_ifs; try discriminate;
+    try (injection H as <-); split; try reflexivity; try exact I; lia.
+Qed.
+
+Lemma bearer_keep_sound n k d : bearer_confirmed n k d = CKeep -> exists w, d = Some w /\ w_inside_b n k w = true.
+Proof.
+  destruct d as [[nb nooa]|]; [|discriminate]. intros H. exists (nb, nooa). split; [reflexivity|].
+  unfold bearer_confirmed in H.
+  destruct nb as [[a fa]|], nooa as [[b fb]|]; unfold_w; split_hyp_ifs; try discriminate; lia.
+Qed.
+
+Definition conf_inside_b (n k : Z) (d : option window) : bool :=
+  match d with Some w => w_inside_b n k w | None => false end.
+
+Lemma confirmations_ok_sound n k l : forall kept, confirmations_ok n k l kept = true ->
+  kept = true \/ existsb (conf_inside_b n k) l = true.
+Proof.
+  induction l as [|d r IH]; intros kept H; cbn [confirmations_ok existsb] in *; [left; exact H|].
+  destruct (bearer_confirmed n k d) eqn:E; [discriminate H| |].
+  - destruct (IH _ H) as [G|G]; [left; exact G|right; rewrite G; apply orb_true_r].
+  - right. destruct (bearer_keep_sound _ _ _ E) as [w [-> Hw]]. cbn [conf_inside_b]. rewrite Hw. reflexivity.
+Qed.
+
+Lemma xaccept_sound_b x : 0 < xnow x - xskew x -> xsound_b x (xaccept x) = true.
+Proof.
+  destruct x as [n a m]. unfold xaccept, xskew, verify_ok. cbn [xnow xatd xm]. rewrite timeslack_skew.
+  set (k := match a with Some z => z | None => 0 end). intros Hpos.
+  destruct (unravels (m_binding m)); cbn [negb]; [|reflexivity].
+  destruct (issue_instant_ok n k (m_issue m)) eqn:Ei; rewrite ?andb_false_r; cbn [negb]; [|reflexivity].
+  destruct (if asynchop (m_binding m) then _ else true); cbn [andb negb]; [|reflexivity].
+  destruct (statements_ok n k (m_statements m)) as [session|] eqn:Es; [|reflexivity].
+  destruct (conditions_ok n k (m_conditions m)) as [nooa|] eqn:Ec; [|reflexivity].
+  destruct (confirmations_ok n k (m_confirmations m) false) eqn:Ek; [|reflexivity].
+  destruct (statements_ok_sound _ _ _ _ Hpos Es) as [S1 S2].
+  pose proof (conditions_ok_sound _ _ _ _ Ec) as C1.
+  destruct (confirmations_ok_sound _ _ _ _ Ek) as [K|K]; [discriminate K|].
+  unfold xsound_b, xskew. cbn [xnow xatd xm]. fold k. fold (conf_inside_b n k).
+  rewrite !andb_true_iff. repeat split.
+  - exact S1.
+  - destruct (m_conditions m) as [w|]; [apply C1|reflexivity].
+  - exact K.
+  - unfold issue_instant_ok, str_to_time, sec in *. lia.
+  - unfold xexpiry_ok_b. destruct (present (m_statements m)) as [|e r] eqn:Ep.
+    + subst session. cbn [Z.gtb Z.compare]. destruct (m_conditions m) as [[nb [c|]]|]; try reflexivity.
+      destruct C1 as [_ ->]. apply Z.eqb_refl.
+    + destruct S2 as [-> S2]. exact S2.
+Qed.
+
+(* ---- completeness, stage by stage *)
+Lemma bearer_keep_complete n k w :
+  w_strict_b n k w && (negb (opt_some_b (fst w)) || opt_some_b (snd w)) = true -> bearer_confirmed n k (Some w) = CKeep.
+Proof.
+  destruct w as [[[a fa]|] [[b fb]|]]; unfold bearer_confirmed; unfold_w; intros H; split_ifs; try reflexivity;
+    try discriminate; lia.
+Qed.
+
+Definition conf_strict_b (n k : Z) (d : option window) : bool :=
+  match d with
+  | Some w => w_strict_b n k w && (negb (opt_some_b (fst w)) || opt_some_b (snd w))
+  | None => false
+  end.
+
+Lemma confirmations_ok_complete n k l : forallb (conf_strict_b n k) l = true ->
+  forall kept, confirmations_ok n k l kept = match l with [] => kept | _ => true end.
+Proof.
+  induction l as [|d r IH]; intros H kept; [reflexivity|]. cbn [forallb] in H. apply andb_true_iff in H as [Hd Hr].
+  cbn [confirmations_ok]. destruct d as [w|]; [|discriminate Hd]. cbn [conf_strict_b] in Hd.
+  rewrite (bearer_keep_complete _ _ _ Hd). rewrite (IH Hr). destruct r; reflexivity.
+Qed.
+
+Lemma xaccept_complete_b x : xstrictly_inside_b x = true -> xaccept x <> Reject.
+Proof.
+  destruct x as [n a m]. unfold xstrictly_inside_b, xaccept, xskew, verify_ok. cbn [xnow xatd xm]. rewrite timeslack_skew.
+  set (k := match a with Some z => z | None => 0 end). intros H.
+  repeat (apply andb_true_iff in H; let H' := fresh "H" in destruct H as [H H']).
+  fold (conf_strict_b n k) in *.
+  rename H into Hk0, H6 into Hun, H5 into Hd, H4 into Hst, H3 into Hc, H2 into Hne, H1 into Hcf, H0 into Hi.
+  rewrite Hun. cbn [negb].
+  assert (Ei : issue_instant_ok n k (m_issue m) = true).
+  { unfold issue_instant_ok, str_to_time, sec in *. lia. }
+  rewrite Ei.
+  assert (Ed : (if asynchop (m_binding m) then match m_destination m with Some false => false | _ => true end else true) = true).
+  { destruct (asynchop (m_binding m)); [exact Hd|reflexivity]. }
+  rewrite Ed. cbn [andb negb].
+  destruct (m_statements m) as [|s [|s2 r]]; try discriminate Hst. cbn [statements_ok].
+  assert (Es : exists v, validate_on_or_after n k s = Some v).
+  { destruct s as [[s f]|]; unfold_w; [|eexists; reflexivity]. destruct (n >? s + k) eqn:E; [lia|eexists; reflexivity]. }
+  destruct Es as [v ->].
+  assert (Ec : exists v, conditions_ok n k (m_conditions m) = Some v).
+  { destruct (m_conditions m) as [[[[c1 f1]|] [[c2 f2]|]]|]; unfold conditions_ok; unfold_w; split_ifs;
+      try (eexists; reflexivity); try discriminate; lia. }
+  destruct Ec as [v' ->].
+  rewrite (confirmations_ok_complete _ _ _ Hcf). destruct (m_confirmations m); [discriminate Hne|]. discriminate.
+Qed.
+
+(* ---- reflection *)
+Lemma lower_ok_b_iff n k o : lower_ok_b n k o = true <-> lower_ok n k o.
+Proof. destruct o; cbn; [apply Z.leb_le|tauto]. Qed.
+Lemma upper_ok_b_iff n k o : upper_ok_b n k o = true <-> upper_ok n k o.
+Proof. destruct o; cbn; [apply Z.leb_le|tauto]. Qed.
+Lemma lower_strict_b_iff n k o : lower_strict_b n k o = true <-> lower_strict n k o.
+Proof. destruct o; cbn; [apply Z.ltb_lt|tauto]. Qed.
+Lemma upper_strict_b_iff n k o : upper_strict_b n k o = true <-> upper_strict n k o.
+Proof. destruct o; cbn; [apply Z.ltb_lt|tauto]. Qed.
+Lemma w_inside_b_iff n k w : w_inside_b n k w = true <-> w_inside n k w.
+Proof. unfold w_inside_b, w_inside. rewrite !andb_true_iff, lower_ok_b_iff, upper_ok_b_iff, ordered_b_iff. tauto. Qed.
+Lemma w_strict_b_iff n k w : w_strict_b n k w = true <-> w_strict n k w.
+Proof. unfold w_strict_b, w_strict. rewrite !andb_true_iff, lower_strict_b_iff, upper_strict_b_iff, ordered_b_iff. tauto. Qed.
+
+Lemma xexpiry_ok_b_iff m r : xexpiry_ok_b m r = true <-> xexpiry_ok m r.
+Proof.
+  unfold xexpiry_ok_b, xexpiry_ok. destruct (present (m_statements m)) as [|e l].
+  - destruct (m_conditions m) as [[nb [c|]]|]; try tauto. apply Z.eqb_eq.
+  - rewrite existsb_exists. split.
+    + intros [z [Hz E]]. apply Z.eqb_eq in E. subst z. exact Hz.
+    + intros Hz. exists r. split; [exact Hz|apply Z.eqb_refl].
+Qed.
+
+Lemma xsound_b_iff x v : xsound_b x v = true <-> xsound x v.
+Proof.
+  unfold xsound_b, xsound. destruct v as [r|]; [|tauto]. cbv zeta.
+  rewrite !andb_true_iff, forallb_forall, existsb_exists, Z.leb_le, xexpiry_ok_b_iff.
+  assert (E1 : (forall s, In s (m_statements (xm x)) -> upper_ok_b (xnow x) (xskew x) s = true)
+               <-> (forall s, In s (m_statements (xm x)) -> upper_ok (xnow x) (xskew x) s)).
+  { split; intros H s Hs; apply upper_ok_b_iff, H, Hs. }
+  assert (E2 : match m_conditions (xm x) with Some w => w_inside_b (xnow x) (xskew x) w | None => true end = true
+               <-> (forall w, m_conditions (xm x) = Some w -> w_inside (xnow x) (xskew x) w)).
+  { destruct (m_conditions (xm x)) as [w|].
+    - rewrite w_inside_b_iff. split; [intros H w' [= <-]; exact H|intros H; apply H; reflexivity].
+    - split; [intros _ w [=]|reflexivity]. }
+  assert (E3 : (exists d, In d (m_confirmations (xm x)) /\
+                  match d with Some w => w_inside_b (xnow x) (xskew x) w | None => false end = true)
+               <-> (exists w, In (Some w) (m_confirmations (xm x)) /\ w_inside (xnow x) (xskew x) w)).
+  { split.
+    - intros [[w|] [Hd Hw]]; [|discriminate Hw]. exists w. split; [exact Hd|apply w_inside_b_iff, Hw].
+    - intros [w [Hd Hw]]. exists (Some w). split; [exact Hd|apply w_inside_b_iff, Hw]. }
+  rewrite E1, E2, E3. tauto.
+Qed.
+
+Lemma xstrictly_inside_b_iff x : xstrictly_inside_b x = true <-> xstrictly_inside x.
+Proof.
+  unfold xstrictly_inside_b, xstrictly_inside. cbv zeta.
+  rewrite !andb_true_iff, forallb_forall, Z.leb_le, Z.ltb_lt.
+  assert (E1 : match m_destination (xm x) with Some false => false | _ => true end = true
+               <-> m_destination (xm x) <> Some false).
+  { destruct (m_destination (xm x)) as [[|]|]; split; congruence. }
+  assert (E2 : match m_statements (xm x) with [s] => upper_strict_b (xnow x) (xskew x) s | _ => false end = true
+               <-> (exists s, m_statements (xm x) = [s] /\ upper_strict (xnow x) (xskew x) s)).
+  { destruct (m_statements (xm x)) as [|s [|s2 r]].
+    - split; [discriminate|intros [s [H _]]; discriminate H].
+    - rewrite upper_strict_b_iff. split; [intros H; exists s; split; [reflexivity|exact H]|intros [s' [[= <-] H]]; exact H].
+    - split; [discriminate|intros [s' [H _]]; discriminate H]. }
+  assert (E3 : match m_conditions (xm x) with Some w => w_strict_b (xnow x) (xskew x) w | None => true end = true
+               <-> (forall w, m_conditions (xm x) = Some w -> w_strict (xnow x) (xskew x) w)).
+  { destruct (m_conditions (xm x)) as [w|].
+    - rewrite w_strict_b_iff. split; [intros H w' [= <-]; exact H|intros H; apply H; reflexivity].
+    - split; [intros _ w [=]|reflexivity]. }
+  assert (E4 : match m_confirmations (xm x) with [] => false | _ => true end = true <-> m_confirmations (xm x) <> []).
+  { destruct (m_confirmations (xm x)); split; congruence. }
+  assert (E5 : (forall d, In d (m_confirmations (xm x)) ->
+                  match d with
+                  | Some w => w_strict_b (xnow x) (xskew x) w && (negb (opt_some_b (fst w)) || opt_some_b (snd w))
+                  | None => false
+                  end = true)
+               <-> (forall d, In d (m_confirmations (xm x)) ->
+                      exists w, d = Some w /\ w_strict (xnow x) (xskew x) w /\ (fst w <> None -> snd w <> None))).
+  { assert (P : forall w : window, negb (opt_some_b (fst w)) || opt_some_b (snd w) = true <-> (fst w <> None -> snd w <> None)).
+    { intros [[a|] [b|]]; cbn; split; try tauto; try congruence. intros H. exfalso. apply H; congruence. }
+    split; intros H d Hd; specialize (H d Hd).
+    - destruct d as [w|]; [|discriminate H]. apply andb_true_iff in H as [H1 H2]. exists w.
+      split; [reflexivity|]. split; [apply w_strict_b_iff, H1|apply P, H2].
+    - destruct H as [w [-> [H1 H2]]]. apply andb_true_iff. split; [apply w_strict_b_iff, H1|apply P, H2]. }
+  rewrite E1, E2, E3, E4, E5. tauto.
+Qed.
+
+Lemma xspec_b_iff x v : xspec_b x v = true <-> xspec x v.
+Proof.
+  unfold xspec_b, xspec. rewrite andb_true_iff, xsound_b_iff, orb_true_iff, negb_true_iff.
+  rewrite <- xstrictly_inside_b_iff.
+  assert (E : (match v with Reject => false | Accept _ => true end) = true <-> v <> Reject).
+  { destruct v; split; congruence. }
+  rewrite E. destruct (xstrictly_inside_b x); split; intros [H1 H2]; (split; [exact H1|]).
+  - destruct H2 as [H2|H2]; [discriminate|intros _; exact H2].
+  - right. apply H2. reflexivity.
+  - intros H; discriminate.
+  - left. reflexivity.
+Qed.
+
+Lemma xvalidity_holds x : 0 < xnow x - xskew x -> xspec x (xaccept x).
+Proof.
+  intros Hpos. split.
+  - apply xsound_b_iff, xaccept_sound_b, Hpos.
+  - intros H. apply xaccept_complete_b, xstrictly_inside_b_iff, H.
+Qed.
+
+(* ---- the old shape: on a message with HTTP-POST delivery, Conditions, one bearer confirmation with data and one
+   AuthnStatement, the wide model is [accept] and the wide property is [spec] (nothing was loosened) *)
+Lemma xaccept_widen x : xaccept (widen x) = accept x.
+Proof.
+  destruct x as [n a [c1 c2 s1 s2 se i]]. unfold xaccept, widen, accept, verify_ok, statements_ok, conditions_ok.
+  cbn [now atd t cnb cnooa snb snooa sess issue xnow xatd xm m_binding m_destination m_encrypted m_issue m_conditions
+       m_confirmations m_statements unravels asynchop negb andb confirmations_ok bearer_confirmed].
+  set (sl := timeslack a). clearbody sl.
+  destruct (issue_instant_ok n sl i); cbn [negb]; [|reflexivity].
+  destruct (validate_on_or_after n sl se) as [session|]; [|reflexivity].
+  destruct (match c1, c2 with Some _, Some _ => negb (later_than c2 c1) | _, _ => false end); [reflexivity|].
+  destruct (validate_on_or_after n sl c2) as [nooa|]; [|reflexivity].
+  destruct (validate_before n sl c1); cbn [negb]; [|reflexivity].
+  destruct (validate_on_or_after n sl s2) as [w|]; [|reflexivity].
+  destruct (validate_before n sl s1); cbn [negb]; [|reflexivity].
+  destruct (later_than s2 s1); reflexivity.
+Qed.
+
+Lemma xsound_b_widen x v : xsound_b (widen x) v = sound_b x v.
+Proof.
+  destruct x as [n a [c1 c2 s1 s2 se i]]. destruct v as [r|]; [|reflexivity].
+  unfold xsound_b, sound_b, widen, xskew, skew, xexpiry_ok_b, expected_expiry, uppers, lowers, present.
+  cbn [now atd t cnb cnooa snb snooa sess issue xnow xatd xm m_binding m_destination m_encrypted m_issue m_conditions
+       m_confirmations m_statements forallb existsb].
+  set (k := match a with Some z => z | None => 0 end). clearbody k.
+  destruct c1 as [[c1 f1]|], c2 as [[c2 f2]|], s1 as [[s1 g1]|], s2 as [[s2 g2]|], se as [[se h]|];
+    unfold_w; cbn [flat_map app forallb map existsb fst snd]; btauto.
+Qed.
+
+Lemma xstrictly_inside_b_widen x : xstrictly_inside_b (widen x) = strictly_inside_b x.
+Proof.
+  destruct x as [n a [c1 c2 s1 s2 se i]].
+  unfold xstrictly_inside_b, strictly_inside_b, widen, xskew, skew, uppers, lowers.
+  cbn [now atd t cnb cnooa snb snooa sess issue xnow xatd xm m_binding m_destination m_encrypted m_issue m_conditions
+       m_confirmations m_statements forallb unravels].
+  set (k := match a with Some z => z | None => 0 end). clearbody k.
+  destruct c1 as [[c1 f1]|], c2 as [[c2 f2]|], s1 as [[s1 g1]|], s2 as [[s2 g2]|], se as [[se h]|];
+    unfold_w; cbn [flat_map app forallb fst snd]; btauto.
+Qed.
+
+Lemma xspec_widen x v : xspec (widen x) v <-> spec x v.
+Proof.
+  rewrite <- xspec_b_iff, <- spec_b_iff. unfold xspec_b, spec_b. rewrite xsound_b_widen, xstrictly_inside_b_widen. tauto.
+Qed.
+
+(* ---- how the Response was delivered does not matter: any two deliveries the SP can unpack, with a
+   Destination that is absent or the SP's own, the assertion in the clear or encrypted, give the same verdict *)
+Definition redeliver (b : binding) (d : option bool) (e : bool) (x : xinput) : xinput :=
+  {| xnow := xnow x; xatd := xatd x;
+     xm := {| m_binding := b; m_destination := d; m_encrypted := e; m_issue := m_issue (xm x); m_conditions := m_conditions (xm x);
+              m_confirmations := m_confirmations (xm x); m_statements := m_statements (xm x) |} |}.
+
+Lemma delivery_independent x b d e :
+  unravels (m_binding (xm x)) = true -> m_destination (xm x) <> Some false ->
+  unravels b = true -> d <> Some false ->
+  xaccept (redeliver b d e x) = xaccept x.
+Proof.
+  destruct x as [n a [b0 d0 e0 i c cf st]]. unfold redeliver, xaccept, verify_ok.
+  cbn [xnow xatd xm m_binding m_destination m_encrypted m_issue m_conditions m_confirmations m_statements].
+  intros H1 H2 H3 H4. rewrite H1, H3.
+  assert (E : forall bb (dd : option bool), dd <> Some false ->
+              (if asynchop bb then match dd with Some false => false | _ => true end else true) = true).
+  { intros bb [[|]|] Hd; destruct (asynchop bb); try reflexivity. exfalso. apply Hd. reflexivity. }
+  rewrite (E b d H4), (E b0 d0 H2). reflexivity.
+Qed.
+
+(* a stale IssueInstant is refused over EVERY delivery (also the synchronous ones) *)
+Lemma stale_issue_rejected x :
+  Z.abs (sec (m_issue (xm x)) - xnow x) > 86400 + timeslack (xatd x) -> xaccept x = Reject.
+Proof.
+  intros H. unfold xaccept, verify_ok.
+  destruct (unravels (m_binding (xm x))); cbn [negb]; [|reflexivity].
+  assert (E : issue_instant_ok (xnow x) (timeslack (xatd x)) (m_issue (xm x)) = false).
+  { unfold issue_instant_ok, str_to_time, sec in *. lia. }
+  rewrite E, andb_false_r. reflexivity.
+Qed.
+
+(* an expired SessionNotOnOrAfter in ANY AuthnStatement means no identity *)
+Lemma any_session_expired_rejected x s :
+  In (Some s) (m_statements (xm x)) -> xnow x > fst s + timeslack (xatd x) -> xaccept x = Reject.
+Proof.
+  intros Hin H. unfold xaccept.
+  destruct (negb (unravels (m_binding (xm x)))); [reflexivity|].
+  destruct (negb (verify_ok (xnow x) (timeslack (xatd x)) (xm x))); [reflexivity|].
+  destruct (m_statements (xm x)) as [|b [|b2 r]]; try reflexivity. cbn [statements_ok].
+  destruct Hin as [->|[]]. unfold validate_on_or_after, str_to_time.
+  destruct (xnow x >? fst s + timeslack (xatd x)) eqn:E; [reflexivity|lia].
+Qed.
+
+(* non-vacuity: a SOAP delivery without Destination, no Conditions, two confirmations of which the second holds
+   would be refused only for its two AuthnStatements; with one it is accepted and reports SessionNotOnOrAfter *)
+Example wide_example :
+  let m st := {| m_binding := BSoap; m_destination := None; m_encrypted := true; m_issue := (1700000001, false); m_conditions := None;
+                 m_confirmations := [None; Some (None, Some (1700000300, false))]; m_statements := st |} in
+  let x st := {| xnow := 1700000000; xatd := Some 60; xm := m st |} in
+  xstrictly_inside_b (x [Some (1700003600, true)]) = false
+  /\ xaccept (x [Some (1700003600, true)]) = Accept 1700003600
+  /\ xaccept (x [None; Some (1700003600, true)]) = Reject
+  /\ xstrictly_inside_b {| xnow := 1700000000; xatd := Some 60;
+                           xm := {| m_binding := BSoap; m_destination := None; m_encrypted := true; m_issue := (1700000001, false);
+                                    m_conditions := None;
+                                    m_confirmations := [Some (None, Some (1700000300, false))];
+                                    m_statements := [Some (1700003600, true)] |} |} = true.
+Proof. vm_compute. repeat split; reflexivity. Qed.
